@@ -17,6 +17,9 @@ def base_ops():
             ("write", "d1", "a", 2500, 0), ("write", "d1", "b", 1025, 0), ("write", "d2", "c", 1000, 0),
             ("write", "d1", "dd/f", 600, 0), ("symlink", "d1", "sl", "a"), ("hardlink", "d1", "hl", "a"),
             ("mkdir", "d2", "emptyd"), ("write", "d2", "t0", 300, 0, 0),
+            # d2 is the longest disk: what arrives on it lands beyond every stripe that existed before (e.g. beyond the stripes a pending
+            # hash migration has tagged)
+            ("write", "d2", "zbig", 9000, 0),
             # twins: same size and the same complete time-stamp, different bytes
             ("writeat", "d1", "tx", 1500, 0, (labmod.T0 + 7000) * 10**9 + 123), ("writeat", "d1", "ty", 1500, 1, (labmod.T0 + 7000) * 10**9 + 123),
             ("cmd", "sync")]
@@ -56,6 +59,9 @@ ALPHABET = {
     "file-on-empty-disk": [("write", "d3", "first", 100, 0)],
     "zerofile-on-empty-disk": [("write", "d3", "z", 0, 0)],
     "rm-emptydir": [("rmdir", "d2", "emptyd")],
+    # size changes in place (same inode) with the time-stamp put back: only the size tells
+    "grow-same-stamp": [("resizekeep", "d1", "a", 700)],
+    "shrink-same-stamp": [("resizekeep", "d1", "a", -1200)],
     # the twins exchange their inode numbers (names, bytes and stamps unchanged)
     "swap-inodes-of-twins": [("swapinodes", "d1", "tx", "ty")],
     # a file put back from a copy: same name, size and time-stamp, new inode; its hard link made again (scanned after it)
